@@ -49,12 +49,14 @@ def build(case):
     kinds = [KINDS[rng.randrange(len(KINDS))] for _ in range(n)]
     kind = (lambda i: kinds[i]) if typed else None
     fl = case["flavour"]
+    # every third tree has application-supplied node ids on its odd nodes (the per-node graph keys are node ids)
+    nid = (lambda i: 700 + i if i % 2 else None) if case["seed"] % 3 == 1 else None
     if fl == "str":
         labs = gen.clone_labeling(rng, f, ["a", "b", "Z\u00fcrich", "km\u00b2"]) or [f"n{i}" for i in range(n)]
-        nodes = gen.build(t, f, lambda i: labs[i], kind=kind)
+        nodes = gen.build(t, f, lambda i: labs[i], kind=kind, node_id=nid)
     elif fl == "int":
         labs = gen.clone_labeling(rng, f, [0, 1, 2, 3]) or list(range(n))
-        nodes = gen.build(t, f, lambda i: labs[i], kind=kind)
+        nodes = gen.build(t, f, lambda i: labs[i], kind=kind, node_id=nid)
     else:
         # explicit ids, some falsy ("" is not usable as DOT key; 0 and False-like ints are)
         labs = gen.clone_labeling(rng, f, ["p", "q", "r", "s"]) or [f"n{i}" for i in range(n)]
